@@ -95,32 +95,52 @@ def generic_orders(chk):
     for r in res.replays:
         c, params, members = r["case"], r["params"], r["members"]
         g = "<" + ", ".join(params) + ">"
-        trees = [(m["name"], wrapt[c["wrap"]](m["param"])) for m in members]
+        trees = [(m["name"], wrapt[c["wrap"]](m["param"])) for m in members if m["param"] != "-"]
+        mentioned = {m["param"] for m in members}
+        # a parameter the generated members do not mention is kept alive the way Rust requires it: a skipped PhantomData member
+        phantom = [f"#[serde(skip)] pub ph{i}: std::marker::PhantomData<{p}>" for i, p in enumerate(params) if p not in mentioned]
         if c["host"] == "struct":
-            src = f"#[typeshare]\npub struct HostG{g} {{\n" + "".join(f"    pub {n}: {typecases.rust_text(t)},\n" for n, t in trees) + "}\n"
+            src = f"#[typeshare]\npub struct HostG{g} {{\n" + "".join(f"    pub {n}: {typecases.rust_text(t)},\n" for n, t in trees) + "".join(f"    {x},\n" for x in phantom) + "}\n"
         elif c["host"] == "vfield":
             src = (f'#[typeshare]\n#[serde(tag = "t", content = "c")]\npub enum HostG{g} {{\n    Sv {{\n' +
-                   "".join(f"        {n}: {typecases.rust_text(t)},\n" for n, t in trees) + "    },\n    Unit,\n}\n")
+                   "".join(f"        {n}: {typecases.rust_text(t)},\n" for n, t in trees) + "".join(f"        {x.replace('pub ', '')},\n" for x in phantom) + "    },\n    Unit,\n}\n")
+        elif c["host"] == "alias_vec":          # Rust accepts an alias parameter that the aliased type does not mention
+            target = trees[0][1] if trees else {"k": "vec", "e": {"k": "prim", "n": "String"}}
+            src = f"#[typeshare]\npub type HostG{g} = {typecases.rust_text(target)};\n"
+            trees = [("alias", target)]
+        elif c["host"] == "serialized_as":      # the typed-id pattern: a struct generated as String, its parameters are markers only
+            target = {"k": "prim", "n": "String"}
+            src = f'#[typeshare(serialized_as = "String")]\npub struct HostG{g} {{\n    raw: String,\n' + "".join(f"    {x.replace('#[serde(skip)] pub ', '')},\n" for x in phantom) + "}\n"
+            trees = [("alias", target)]
         else:
             decl = "#[typeshare]\npub struct Tup" + g + " {\n" + "".join(f"    pub t{i}: {p},\n" for i, p in enumerate(params)) + "}\n"
             target = {"k": "user", "n": "Tup", "args": [t for _, t in trees]}
             src = decl + f"#[typeshare]\npub type HostG{g} = {typecases.rust_text(target)};\n"
             trees = [("alias", target)]
+        # every reference to the item carries one argument per declared parameter
+        src += "#[typeshare]\npub struct UsesHostG {\n    pub r: HostG<" + ", ".join(["u32", "String", "bool", "u8"][:len(params)]) + ">,\n}\n"
         srcs.append(src)
-        cases.append((c, trees))
+        cases.append((c, trees, params))
     results = observe.generate(srcs)
     events, meta = [], []
-    for (c, trees), per, src in zip(cases, results, srcs):
+    # which declarations state a parameter list at all (what the output of a language can carry): alias declarations in TypeScript,
+    # Kotlin, Swift and Scala; struct declarations everywhere; the declaration of a tagged enum in the same four
+    carries = {"struct": set(common.LANGS), "vfield": {"typescript", "kotlin", "swift", "scala"}}
+    for (c, trees, params), per, src in zip(cases, results, srcs):
         for lang in common.LANGS:
             r = per[lang]
             if r["status"] != "ok":
                 continue          # refused by the backend (generics in Go), unreadable (C10) or a panic (C07)
             obs = r["obs"]
-            if c["host"] == "alias_of_struct":
-                a = observe.find_def(obs, "HostG")
+            hd = observe.find_def(obs, "HostG")
+            if hd is not None and lang in carries.get(c["host"], {"typescript", "kotlin", "swift", "scala"}):
+                events.append({"lang": lang, "declared": list(hd.get("generics") or []), "params": list(params)})
+                meta.append((lang, f"generics:{c['host']}", "decl", None, None, src, None, 0))
+            if c["host"] in ("alias_of_struct", "alias_vec", "serialized_as"):
+                a = hd
                 found = {"alias": a["target"]} if a and a["kind"] == "alias" else {}
             elif c["host"] == "struct":
-                d = observe.find_def(obs, "HostG")
+                d = hd
                 found = {m["key"]: (m["optional"], m["ty"]) for m in (d or {}).get("members", [])}
             else:
                 ms = observe.struct_variant_members(lang, obs, ["HostG"], "Sv", "Sv")
@@ -138,6 +158,12 @@ def generic_orders(chk):
     idx, rejected = validate(chk, events, meta, "Trace_C05", "generic-order")
     for i in idx:
         e, m = events[i], meta[i]
+        if "declared" in e:
+            chk.judged((e["lang"], m[1], "decl", m[5]))
+            if i in rejected:
+                chk.mismatch(f"C05/{m[0]}/{m[1]}/declared-parameters", f"{m[0]} ({m[1]}): the item is declared in Rust with the parameters {e['params']}, the generated "
+                             f"declaration states {e['declared']}", {"src": m[5], "lang": m[0], "host": m[1]}, e["params"], e["declared"])
+            continue
         chk.judged((e["lang"], m[1], e["pos"], typecases.rust_text(e["rust"]), m[5]))
         if i in rejected:
             what = name_event(e, set())
